@@ -234,6 +234,22 @@ def run_shard(shard):
                 m.clear()
                 if m.mapping != {} or m.get_type(short_address=5, instance_number=9) is not None:
                     add_violation(res, "C12:clear", "clear() left entries", case)
+        # clear() empties THIS mapper: another mapper built from the same initial table, and a table the caller kept,
+        # still hold their entries afterwards
+        from dali.device.helpers import DeviceInstanceTypeMapper as DM
+        for t in (1, 3, 4, 0):
+            table = {(5, 9): t, (6, 1): 1}
+            m1, m2 = DM(initial=table), DM(initial=table)
+            kept = dict(m2.mapping)
+            m1.clear()
+            res["evaluations"] += 1
+            if m1.get_type(short_address=5, instance_number=9) is not None or dict(m1.mapping) != {}:
+                add_violation(res, "C12:clear", "clear() left entries", {"t": "forms", "type": t, "form": "shared-initial"})
+            v = (5 << 17) | (1 << 15) | (9 << 10) | 2
+            d, got = check_event(res, v, m2, t, f"{t}/shared-initial-after-clear-of-the-other", from_frame, FF, "forms")
+            if m2.get_type(short_address=5, instance_number=9) != t or dict(m2.mapping) != kept:
+                add_violation(res, "C12:clear-affects-another-mapper", f"two mappers built from one initial table: clear() on the first emptied the second "
+                              f"({dict(m2.mapping)}, was {kept})", {"t": "forms", "type": t, "form": "shared-initial"})
         sample(res, {"forms": FORMS, "types": "0..31"})
     elif k == "mapops":
         # every sequence of <= depth operations on one mapper (first operation fixed by the shard) against a plain dict;
